@@ -15,6 +15,7 @@ RULE = ('the C01 byte space (every opcode cell x 256 ModRM x SIB/filler classes;
         'slices inside operands, compose slots tiling), source width = destination width (a 1-bit flag may receive a wider source whose value is 0/1 on '
         '32 valuations), no two assignments write the same register or overlapping memory. A case = the byte string; non-trivial = it was lifted and checked.')
 RULE += ' Round 6: address-rule keys carry the operand size (a32+o16, a16+o16).'
+RULE += ' Round 7: the count grid of C01 (all 256 immediates on shift / rotate / double-shift / bit-test forms, with and without 66).'
 ASSUMPTIONS = ['irsem.typecheck encodes the typing rules of the statement', '0/1-valuedness of flag sources is decided on 32 valuations (uninterpreted operators get the benefit of the doubt)']
 
 
